@@ -63,6 +63,10 @@ def main(argv):
     ids = ids or ALL
     if argv[0] == "determinism":
         return determinism(ids, runs)
+    if argv[0] == "benign":
+        from . import benign
+
+        return benign.main([x for x in argv[1:] if not x.startswith("--")])
     if argv[0] == "sensitivity":
         from . import sensitivity
 
